@@ -71,42 +71,153 @@ def run(ctx: Ctx):
     ctx.guarded(nonneg_option, ctx)
 
 
+def _cn(c):
+    return c.func.attr if isinstance(c.func, ast.Attribute) else (c.func.id if isinstance(c.func, ast.Name) else "")
+
+
+def _decision_paths(f, rule):
+    """The two straight-line statement sequences of svd_flip, one per value of the deciding flag
+    (third parameter).  Accepts `if flag: A else: B`, the negated test, and the early-return
+    form `if flag: A; return ...` followed by B.  Statements before / after the branch are
+    part of both sequences."""
+    flag = f.pos_params[2] if len(f.pos_params) > 2 else None
+    body = [s for s in f.node.body if not (isinstance(s, ast.Expr) and isinstance(s.value, ast.Constant))]
+    for i, s in enumerate(body):
+        if not isinstance(s, ast.If):
+            continue
+        t, neg = s.test, False
+        while isinstance(t, ast.UnaryOp) and isinstance(t.op, ast.Not):
+            t, neg = t.operand, not neg
+        if isinstance(t, ast.Compare) and len(t.ops) == 1 and isinstance(t.comparators[0], ast.Constant) and isinstance(t.comparators[0].value, bool) and isinstance(t.ops[0], (ast.Is, ast.Eq, ast.IsNot, ast.NotEq)):
+            if (t.comparators[0].value is False) != isinstance(t.ops[0], (ast.IsNot, ast.NotEq)):
+                neg = not neg
+            t = t.left
+        if not is_name(t, flag):
+            continue
+        pre, post = body[:i], body[i + 1 :]
+        ends = lambda blk: bool(blk) and isinstance(blk[-1], ast.Return)
+        yes = pre + s.body + ([] if ends(s.body) else post)
+        no = pre + s.orelse + ([] if ends(s.orelse) else post)
+        if not s.orelse and not ends(s.body):
+            break
+        if neg:
+            yes, no = no, yes
+        out = []
+        for label, path in (("U-based", yes), ("V-based", no)):
+            fn = ast.FunctionDef(name=f.name, args=f.node.args, body=path, decorator_list=[], returns=None, type_comment=None, type_params=[])
+            out.append((label, path, fn))
+        return out
+    raise AnalysisError(f"{rule}: svd_flip no longer branches once on its deciding flag `{flag}`; cannot decide")
+
+
+def _sign_vectors(path_nodes):
+    """Names bound to sign(...) results, or to such a vector padded with ones (concatenate)."""
+    signs = set()
+    changed = True
+    while changed:
+        changed = False
+        for n in path_nodes:
+            if isinstance(n, ast.Assign) and len(n.targets) == 1 and isinstance(n.targets[0], ast.Name) and isinstance(n.value, ast.Call) and n.targets[0].id not in signs:
+                c = n.value
+                if _cn(c) == "sign":
+                    signs.add(n.targets[0].id)
+                    changed = True
+                if _cn(c) in ("concatenate", "hstack") and c.args and isinstance(c.args[0], (ast.Tuple, ast.List)) and c.args[0].elts:
+                    first, rest = c.args[0].elts[0], c.args[0].elts[1:]
+                    if isinstance(first, ast.Name) and first.id in signs and all(isinstance(r, ast.Call) and _cn(r) == "ones" for r in rest):
+                        signs.add(n.targets[0].id)
+                        changed = True
+    return signs
+
+
+def _sign_based(e, signs):
+    subs = []
+    while isinstance(e, ast.Subscript):
+        subs.append(e.slice)
+        e = e.value
+    return (isinstance(e, ast.Name) and e.id in signs), subs
+
+
 def flip_paired(ctx: Ctx):
+    """Along each of the two decision paths a tiny value numbering follows U and V: a product
+    `<X-derived> * <sign vector>` is X flipped once more.  The returned pair must be
+    (U flipped once, V flipped once)."""
     res = ctx.res
     f = ctx.repo.func(S + "svd_flip")
     if len(f.pos_params) < 2:
         raise AnalysisError("FLIP-PAIRED: svd_flip no longer takes (U, V)")
     pu, pv = f.pos_params[0], f.pos_params[1]
-    branches = [s for s in f.node.body if isinstance(s, ast.If)]
-    if len(branches) != 1 or not branches[0].orelse:
-        raise AnalysisError("FLIP-PAIRED: svd_flip is no longer one if / else on the deciding factor; cannot decide")
-    for label, body in (("U-based", branches[0].body), ("V-based", branches[0].orelse)):
-        signs = set()
-        for s in body:
-            for n in ast.walk(s):
-                if isinstance(n, ast.Assign) and isinstance(n.value, ast.Call) and len(n.targets) == 1 and isinstance(n.targets[0], ast.Name):
-                    c = n.value
-                    nm = c.func.attr if isinstance(c.func, ast.Attribute) else (c.func.id if isinstance(c.func, ast.Name) else "")
-                    if nm == "sign":
-                        signs.add(n.targets[0].id)
+    for label, path, fn in _decision_paths(f, "FLIP-PAIRED"):
+        nodes = [n for s in path for n in ast.walk(s)]
+        signs = _sign_vectors(nodes)
         if not signs:
             raise AnalysisError(f"FLIP-PAIRED: no sign vector in the {label} branch of svd_flip")
-        multiplied = {}
-        for s in body:
-            for n in ast.walk(s):
-                if isinstance(n, ast.Assign) and len(n.targets) == 1 and isinstance(n.targets[0], ast.Name) and isinstance(n.value, ast.BinOp) and isinstance(n.value.op, ast.Mult):
-                    l, r = n.value.left, n.value.right
-                    for side, other in ((l, r), (r, l)):
-                        base = other
-                        while isinstance(base, ast.Subscript):
-                            base = base.value
-                        if isinstance(base, ast.Name) and base.id in signs and is_name(side, n.targets[0].id):
-                            multiplied.setdefault(n.targets[0].id, []).append(n)
-        ok = set(multiplied) == {pu, pv} and all(len(v) == 1 for v in multiplied.values())
-        res.instance("FLIP-PAIRED", f"svd_flip [{label}]", sample={"sign_vectors": sorted(signs), "multiplied": {k: len(v) for k, v in multiplied.items()}, "ok": ok})
+        env = {pu: (pu, 0), pv: (pv, 0)}
+
+        def val(e):
+            if isinstance(e, ast.Name):
+                return env.get(e.id)
+            if isinstance(e, ast.BinOp) and isinstance(e.op, ast.Mult):
+                for side, other in ((e.left, e.right), (e.right, e.left)):
+                    sb, _ = _sign_based(other, signs)
+                    v = val(side)
+                    if sb and v is not None:
+                        return (v[0], v[1] + 1)
+            return None
+
+        returned = None
+
+        def walk_block(blk, nested):
+            nonlocal returned
+            for st in blk:
+                if isinstance(st, ast.Assign):
+                    for t in st.targets:
+                        if isinstance(t, ast.Name):
+                            v = val(st.value)
+                            if v is not None and nested:
+                                raise AnalysisError(f"FLIP-PAIRED: `{src(st)[:60]}` flips a factor under a nested condition in the {label} branch; cannot decide")
+                            if v is not None:
+                                env[t.id] = v
+                            elif t.id in env:
+                                if t.id in (pu, pv) or env[t.id] is not None:
+                                    env[t.id] = ("?" + src(st.value)[:40], 0)
+                        elif isinstance(t, (ast.Tuple, ast.List)) and isinstance(st.value, (ast.Tuple, ast.List)) and len(t.elts) == len(st.value.elts):
+                            vals = [val(x) for x in st.value.elts]
+                            for e, v in zip(t.elts, vals):
+                                if isinstance(e, ast.Name):
+                                    if v is not None:
+                                        env[e.id] = v
+                                    elif e.id in env:
+                                        env[e.id] = ("?" + src(st)[:40], 0)
+                        else:
+                            for x in ast.walk(t):
+                                if isinstance(x, ast.Name) and x.id in env:
+                                    env[x.id] = ("?" + src(st)[:40], 0)
+                elif isinstance(st, ast.AugAssign) and isinstance(st.target, ast.Name) and st.target.id in env:
+                    sb, _ = _sign_based(st.value, signs)
+                    v = env[st.target.id]
+                    env[st.target.id] = (v[0], v[1] + 1) if (sb and isinstance(st.op, ast.Mult)) else ("?" + src(st)[:40], 0)
+                elif isinstance(st, ast.If):
+                    walk_block(st.body, True)
+                    walk_block(st.orelse, True)
+                elif isinstance(st, ast.Return):
+                    if nested:
+                        raise AnalysisError(f"FLIP-PAIRED: nested return in the {label} branch; cannot decide")
+                    returned = st
+                elif isinstance(st, (ast.For, ast.While, ast.With, ast.Try)):
+                    if any(isinstance(x, ast.Name) and isinstance(x.ctx, ast.Store) and x.id in env for x in ast.walk(st)):
+                        raise AnalysisError(f"FLIP-PAIRED: a factor is rebound inside a compound statement in the {label} branch; cannot decide")
+
+        walk_block(path, False)
+        if returned is None or not isinstance(returned.value, ast.Tuple) or len(returned.value.elts) != 2:
+            raise AnalysisError(f"FLIP-PAIRED: the {label} branch of svd_flip does not end in `return <U>, <V>`; cannot decide")
+        got = [val(e) for e in returned.value.elts]
+        ok = got == [(pu, 1), (pv, 1)]
+        show = {k: (f"{v[0]} flipped {v[1]}x" if v else "unrelated") for k, v in zip(("first", "second"), got)}
+        res.instance("FLIP-PAIRED", f"svd_flip [{label}]", sample={"sign_vectors": sorted(signs), "returned": show, "ok": ok})
         if not ok:
-            node = body[0]
-            ctx.finding("FLIP-PAIRED", f, node, f"svd_flip [{label} decision]: the sign vector multiplies {sorted(multiplied) or 'nothing'} ({ {k: len(v) for k, v in multiplied.items()} } times); it must multiply `{pu}` and `{pv}` exactly once each, otherwise the product U diag(S) V changes sign in the flipped components", construct=f"svd_flip [{label}]: sign vector multiplies {sorted(multiplied)}")
+            flipped = sorted(v[0] for v in got if v and v[1] == 1 and not v[0].startswith("?"))
+            ctx.finding("FLIP-PAIRED", f, returned, f"svd_flip [{label} decision]: returns ({show['first']}, {show['second']}); the sign vector must multiply `{pu}` and `{pv}` exactly once each, otherwise the product U diag(S) V changes sign in the flipped components", construct=f"svd_flip [{label}]: sign vector multiplies {flipped}")
 
 
 def dispatch_agree(ctx: Ctx):
@@ -120,21 +231,39 @@ def dispatch_agree(ctx: Ctx):
     if names is None:
         raise AnalysisError("DISPATCH-AGREE: SVD_FUNS vanished")
     seen = []
-    for n in own_scope_nodes(f.node):
-        if isinstance(n, ast.If) and isinstance(n.test, ast.Compare) and len(n.test.ops) == 1 and isinstance(n.test.ops[0], ast.Eq) and is_name(n.test.left, "method") and isinstance(n.test.comparators[0], ast.Constant) and isinstance(n.test.comparators[0].value, str):
-            key = n.test.comparators[0].value
-            tgt = None
-            for b in n.body:
-                if isinstance(b, ast.Assign) and isinstance(b.value, ast.Name):
-                    tgt = b.value.id
-            seen.append(key)
-            ok = tgt == key and ctx.repo.has_func(S + key)
-            res.instance("DISPATCH-AGREE", f"method == {key!r}", sample={"selects": tgt, "ok": ok})
-            if not ok:
-                ctx.finding("DISPATCH-AGREE", f, n.test, f"svd_interface: the branch `method == {key!r}` selects `{tgt}`: asking for one SVD method silently runs another", construct=f"svd_interface: {key} -> {tgt}")
+    pairs = []  # (key, selected function name | None, node)
+    for n in ast.walk(f.node):
+        if isinstance(n, ast.If) and isinstance(n.test, ast.Compare) and len(n.test.ops) == 1 and isinstance(n.test.ops[0], ast.Eq):
+            l, r = n.test.left, n.test.comparators[0]
+            if isinstance(l, ast.Constant):
+                l, r = r, l
+            if isinstance(l, ast.Name) and isinstance(r, ast.Constant) and isinstance(r.value, str):
+                tgt = None
+                for b_ in n.body:
+                    if isinstance(b_, (ast.Assign, ast.Return)) and isinstance(b_.value, ast.Name):
+                        tgt = b_.value.id
+                pairs.append((r.value, tgt, n.test))
+        elif isinstance(n, (ast.Tuple, ast.List)) and len(n.elts) == 2 and isinstance(n.elts[0], ast.Constant) and isinstance(n.elts[0].value, str) and isinstance(n.elts[1], ast.Name) and isinstance(n.ctx, ast.Load):
+            # a row of a dispatch table: ("<name>", <function>)
+            if n.elts[0].value in names or ctx.repo.has_func(S + n.elts[1].id):
+                pairs.append((n.elts[0].value, n.elts[1].id, n))
+        elif isinstance(n, ast.Dict) and n.keys and all(isinstance(k, ast.Constant) and isinstance(k.value, str) for k in n.keys) and all(isinstance(v, ast.Name) for v in n.values):
+            if any(k.value in names for k in n.keys):
+                for k, v in zip(n.keys, n.values):
+                    pairs.append((k.value, v.id, k))
+    done = set()
+    for key, tgt, node in pairs:
+        if (key, tgt) in done:
+            continue
+        done.add((key, tgt))
+        seen.append(key)
+        ok = tgt == key and ctx.repo.has_func(S + key)
+        res.instance("DISPATCH-AGREE", f"method == {key!r}", sample={"selects": tgt, "ok": ok})
+        if not ok:
+            ctx.finding("DISPATCH-AGREE", f, node, f"svd_interface: the branch `method == {key!r}` selects `{tgt}`: asking for one SVD method silently runs another", construct=f"svd_interface: {key} -> {tgt}")
     if not seen:
         raise AnalysisError("DISPATCH-AGREE: no `method == <name>` branch found in svd_interface")
-    if sorted(seen) != sorted(names):
+    if sorted(set(seen)) != sorted(names):
         ctx.finding("DISPATCH-AGREE", f, f.node, f"SVD_FUNS lists {sorted(names)} but svd_interface dispatches {sorted(seen)}", construct="SVD_FUNS vs dispatch")
 
 
@@ -197,22 +326,20 @@ def deciding_entry(ctx: Ctx):
         `D * signs[:, None]`;
       * a sign argument that adds / subtracts data entries can vanish for a non-zero vector
         (sign 0 annihilates the singular pair in U and V)."""
+    from ..common import inline_locals
+
     res = ctx.res
     f = ctx.repo.func(S + "svd_flip")
-    branches = [s for s in f.node.body if isinstance(s, ast.If)]
-    if len(branches) != 1 or not branches[0].orelse:
-        raise AnalysisError("DECIDING-ENTRY: svd_flip is no longer one if / else on the deciding factor; cannot decide")
+    cn = _cn
 
-    def cn(c):
-        return c.func.attr if isinstance(c.func, ast.Attribute) else (c.func.id if isinstance(c.func, ast.Name) else "")
-
-    for label, body in (("U-based", branches[0].body), ("V-based", branches[0].orelse)):
-        nodes = [n for s in body for n in ast.walk(s)]
+    for label, path, fn in _decision_paths(f, "DECIDING-ENTRY"):
+        nodes = [n for s in path for n in ast.walk(s)]
         sign_defs = [n for n in nodes if isinstance(n, ast.Assign) and isinstance(n.value, ast.Call) and cn(n.value) == "sign" and n.value.args]
         if not sign_defs:
             raise AnalysisError(f"DECIDING-ENTRY: no sign vector in the {label} branch")
         d = sign_defs[0]
-        arg = d.value.args[0]
+        signs = _sign_vectors(nodes)
+        arg = inline_locals(fn, d.value.args[0])
         inner = arg
         while isinstance(inner, ast.Call) and cn(inner) in ("tensor", "array", "asarray") and inner.args:
             inner = inner.args[0]
@@ -225,8 +352,13 @@ def deciding_entry(ctx: Ctx):
             raise AnalysisError(f"DECIDING-ENTRY: the sign argument of the {label} branch is not a selection of entries the rule recognises (`{src(arg)[:60]}`); cannot decide")
         g = inner.generators[0]
         elt = inner.elt
-        if not (isinstance(elt, ast.Subscript) and isinstance(elt.value, ast.Name) and isinstance(elt.slice, ast.Tuple) and len(elt.slice.elts) == 2 and isinstance(g.iter, ast.Call) and cn(g.iter) == "zip" and len(g.iter.args) == 2 and isinstance(g.target, ast.Tuple) and len(g.target.elts) == 2):
-            raise AnalysisError(f"DECIDING-ENTRY: the selection in the {label} branch is not `[D[i, j] for (i, j) in zip(a, b)]`; cannot decide")
+        zipped = None
+        if isinstance(g.iter, ast.Call) and cn(g.iter) == "zip" and len(g.iter.args) == 2 and not g.iter.keywords:
+            zipped = list(g.iter.args)
+        elif isinstance(g.iter, ast.Call) and cn(g.iter) == "enumerate" and len(g.iter.args) == 1 and not g.iter.keywords:
+            zipped = ["enumerate", g.iter.args[0]]  # enumerate(x) == zip(range(len(x)), x)
+        if not (isinstance(elt, ast.Subscript) and isinstance(elt.value, ast.Name) and isinstance(elt.slice, ast.Tuple) and len(elt.slice.elts) == 2 and zipped is not None and isinstance(g.target, ast.Tuple) and len(g.target.elts) == 2) or g.ifs:
+            raise AnalysisError(f"DECIDING-ENTRY: the selection in the {label} branch is not `[D[i, j] for (i, j) in zip(a, b) / enumerate(a)]`; cannot decide")
         D = elt.value.id
         tnames = [e.id if isinstance(e, ast.Name) else None for e in g.target.elts]
         idx_pos = {}
@@ -234,38 +366,42 @@ def deciding_entry(ctx: Ctx):
             if isinstance(e, ast.Name) and e.id in tnames:
                 idx_pos[tnames.index(e.id)] = pos  # zip argument number -> position in D[., .]
         info = {}
-        for k, a in enumerate(g.iter.args):
-            if isinstance(a, ast.Name):
-                defs = [n for n in nodes if isinstance(n, ast.Assign) and any(is_name(t, a.id) for t in n.targets)]
-                if len(defs) == 1 and isinstance(defs[0].value, ast.Call) and cn(defs[0].value) == "argmax":
-                    c = defs[0].value
-                    ax = next((kw.value.value for kw in c.keywords if kw.arg == "axis" and isinstance(kw.value, ast.Constant)), None)
-                    if ax is None and len(c.args) > 1 and isinstance(c.args[1], ast.Constant):
-                        ax = c.args[1].value
-                    m = c.args[0] if c.args else None
-                    over_abs = isinstance(m, ast.Call) and cn(m) == "abs" and m.args and is_name(m.args[0], D)
-                    info[k] = ("argmax", ax, over_abs)
+        for k, a in enumerate(zipped):
+            if a == "enumerate":
+                info[k] = ("range", "len", True)
+                continue
+            a = inline_locals(fn, a)
+            if isinstance(a, ast.Call) and cn(a) == "argmax":
+                c = a
+                ax = next((kw.value.value for kw in c.keywords if kw.arg == "axis" and isinstance(kw.value, ast.Constant)), None)
+                if ax is None and len(c.args) > 1 and isinstance(c.args[1], ast.Constant):
+                    ax = c.args[1].value
+                m = c.args[0] if c.args else None
+                over_abs = isinstance(m, ast.Call) and cn(m) == "abs" and m.args and is_name(m.args[0], D)
+                info[k] = ("argmax", ax, over_abs)
             elif isinstance(a, ast.Call) and cn(a) == "range" and len(a.args) == 1:
                 r = a.args[0]
                 if isinstance(r, ast.Subscript) and isinstance(r.value, ast.Call) and cn(r.value) == "shape" and r.value.args and is_name(r.value.args[0], D) and isinstance(r.slice, ast.Constant):
                     info[k] = ("range", r.slice.value, True)
+                elif isinstance(r, ast.Call) and cn(r) == "len" and r.args:
+                    info[k] = ("range", ("lenof", src(r.args[0])), True)
         am = [k for k, v in info.items() if v[0] == "argmax"]
         rg = [k for k, v in info.items() if v[0] == "range"]
         if len(am) != 1 or len(rg) != 1 or set(idx_pos) != {0, 1}:
             raise AnalysisError(f"DECIDING-ENTRY: the {label} selection does not pair one argmax with one range(shape({D})[k]); cannot decide")
         ax, over_abs = info[am[0]][1], info[am[0]][2]
         rk = info[rg[0]][1]
-        # broadcast of the sign vector onto D
+        if rk == "len" or (isinstance(rk, tuple) and rk[1] == src(zipped[am[0]])):
+            rk = 1 - ax if ax in (0, 1) else None  # as many positions as the arg-max vector has entries
+        elif isinstance(rk, tuple):
+            raise AnalysisError(f"DECIDING-ENTRY: the {label} selection enumerates range(len({rk[1]})); cannot decide")
+        # broadcast of the sign vector onto D (assignment or returned product)
         per = None
         for n in nodes:
-            if isinstance(n, ast.Assign) and is_name(n.targets[0], D) and isinstance(n.value, ast.BinOp) and isinstance(n.value.op, ast.Mult):
-                for side in (n.value.left, n.value.right):
-                    base = side
-                    subs = []
-                    while isinstance(base, ast.Subscript):
-                        subs.append(base.slice)
-                        base = base.value
-                    if isinstance(base, ast.Name) and base.id == d.targets[0].id:
+            if isinstance(n, ast.BinOp) and isinstance(n.op, ast.Mult):
+                for side, other in ((n.left, n.right), (n.right, n.left)):
+                    sb, subs = _sign_based(side, signs)
+                    if sb and is_name(other, D):
                         last = subs[0] if subs else None
                         if last is None:
                             per = 0  # D * signs: one sign per column
